@@ -113,6 +113,12 @@ def parse_pub(body):
     return k
 
 
+def canonical_pubbody(body):
+    """public-key body re-encoded from its parsed fields (MPI bit counts made canonical): two bodies with equal canonical
+    form carry the same key material"""
+    return pub_body(parse_pub(body))
+
+
 def fingerprint(pubbody):
     """20 raw octets; pubbody = public-key packet body (version..material)"""
     return hashlib.sha1(b'\x99' + len(pubbody).to_bytes(2, 'big') + bytes(pubbody)).digest()
